@@ -521,6 +521,15 @@ theorem translate_matches_source (c : Netconfig) (ip nat : Nat) :
     simp only [Except.ok.injEq]
     omega
 
+/-- the getter of `VMNetconfig.mask_bit` — the four octets of the dotted netmask expanded by
+    `bin(int(octet))[2:].zfill(8)`, concatenated, `rstrip("0")`, `len` — is the model's `maskBit` (`32 -` the number of
+    trailing zero bits), for EVERY netmask (also non-contiguous ones); `m` is the netmask as a number and `octets m`
+    its dotted form -/
+theorem maskBit_matches_source (m : Nat) : genMaskBit m = Int.ofNat (maskBit m) := genMaskBit_eq m
+
+example : genMaskBit 4294967040 = 24 ∧ genMaskBit 4278255360 = 24 ∧ genMaskBit 0 = 0 := by
+  simp only [maskBit_matches_source]; decide
+
 example : RangeIsDict (fromInterface { ip := 167837954, netmask := 4294967040, host := none, lo := 100, hi := 102, nc := none }) :=
   fromInterface_rangeIsDict _
 
